@@ -9,6 +9,7 @@ import (
 	"net"
 	"strconv"
 	"strings"
+	"syscall"
 	"time"
 )
 
@@ -36,6 +37,23 @@ type Conn struct {
 
 func Dial(addr string) (*Conn, error) {
 	c, err := net.DialTimeout("tcp", addr, 3*time.Second)
+	if err != nil {
+		return nil, err
+	}
+	return &Conn{C: c, raw: bufio.NewReader(c), Timeout: 4 * time.Second}, nil
+}
+
+// DialSmallWindow connects with a receive buffer of the given size set BEFORE the handshake, so that the advertised window is
+// small from the start: a peer that does not read keeps the sender blocked after a few KB.
+func DialSmallWindow(addr string, rcvbuf int) (*Conn, error) {
+	d := net.Dialer{Timeout: 3 * time.Second, Control: func(network, address string, rc syscall.RawConn) error {
+		var serr error
+		if err := rc.Control(func(fd uintptr) { serr = syscall.SetsockoptInt(int(fd), syscall.SOL_SOCKET, syscall.SO_RCVBUF, rcvbuf) }); err != nil {
+			return err
+		}
+		return serr
+	}}
+	c, err := d.Dial("tcp", addr)
 	if err != nil {
 		return nil, err
 	}
